@@ -264,7 +264,7 @@ fn letters(lists: &[Vec<u8>], params: &[(u64, u8, u8)], src: u8) -> Vec<Blk> {
     let mut v = vec![];
     for l in lists {
         for (gp, cb, da) in params {
-            v.push(Blk { txs: l.clone(), gp: *gp, cb: *cb, da: *da, src, bulk: 0 });
+            v.push(Blk { txs: l.clone(), gp: *gp, cb: *cb, da: *da, src, bulk: 0, rfail: 0 });
         }
     }
     v
